@@ -105,14 +105,13 @@ def run(pid, tier):
         'bounded_native_companion_not_counted': {h: {'evaluated': r['evaluated'], 'domain': r['domain'], 'failures': len(r['failures'])} for h, r in native.items()},
         'verus_functions': [[f[0], f[1], f[2]] for f in funcs],
         'samples': [{'contract': 'elem_set_update: no element changes its class; returns Some(class) exactly for known elements'},
-                    {'native': 'trrel_uf_protocol_le5 bytes [8, 17, 1]: derive (1,3); end of iteration; derive (0,0) -> the known finding: (0,0) never shows in the [] / full view of delta'}],
+                    {'native': 'trrel_uf_protocol_le5 bytes [8, 17, 1]: derive (1,3); end of iteration; derive (0,0) -> (0,0) must show in the [] / full view of delta (the defect repaired by 948973f)'}],
     }
     out.assumptions = TRUSTED + [
         'C12 PARTIAL, BINARY FORM ONLY: proved (unbounded) is the subsumption forest of TrRelUnionFind; the class-level closure, delta/total bookkeeping and index views of the binary trrel_uf '
         'provider are checked by a BOUNDED native enumeration (<= 5 / 6 events over 4 items) against the reflexive transitive closure',
         'the ternary form (generic binary-to-ternary adaptor) is not covered; the generated code around the provider is not covered',
-        'known finding (known-findings.txt): new rows that lie inside one class of the closure (in particular the reflexive pair of a newly mentioned element) never show in the [] / full views of delta; '
-        'the companion keeps that as a separate obligation so that every other deviation is still reported',
+        'the clause "new rows inside one class of the closure show in delta" (violated on the pinned tree, repaired by 948973f) is kept as a separate obligation',
     ]
     if tier == 'thorough' and v.get('path') and v['status'] == 'ok':
         import os
